@@ -49,8 +49,20 @@ Theorem C10_nonvacuous :
   (wf_replay ex_r10 = true /\ res_is_ok (game_start (r_start ex_r10)) = true /\ finished ex_r10 = true).
 Proof. exact (conj ex_r37_wf ex_r10_wf). Qed.
 
+From Peppi Require Import Model.Json Model.Slpp Gen.SlppEntries Proofs.SlppLayout.
+(* ---- the .slpp skip-frames read goes through the same entry dispatch (regenerated): same names, same stopping entry ---- *)
+Theorem C10_written_entries_from_source : forall enc_peppi enc_meta enc_start enc_end enc_frames c g es,
+  slpp_write enc_peppi enc_meta enc_start enc_end enc_frames c g = Ok es ->
+  map fst es = written_names (is_some (g_end (sg_game g))) (is_some (g_gecko (sg_game g))) /\
+  map (fun x => sb (fst x)) (filter snd slpp_read_names) = [last (map fst es) []].
+Proof. exact (fun ep em es_ ee ef c g es H => conj (slpp_write_entries_from_source ep em es_ ee ef c g es H) (slpp_last_entry_from_source ep em es_ ee ef c g es H)). Qed.
+Theorem C10_read_names_from_source : forall p, kind_of p = kind_of_tbl slpp_read_targets p.
+Proof. exact slpp_read_names_from_source. Qed.
+
 Print Assumptions C10_skip_read.
 Print Assumptions C10_skip_equals_full.
 Print Assumptions C10_skip_result_writable.
 Print Assumptions C10_nonvacuous.
 Print Assumptions C10_reader_from_source.
+Print Assumptions C10_written_entries_from_source.
+Print Assumptions C10_read_names_from_source.
